@@ -241,6 +241,29 @@ def shape_tag(gen):
     return parts[0] if parts[0] in ("fixed",) or parts[0].startswith("exhaustive") else "/".join(parts[1:])
 
 
+def tiebreak_rankings(obs, limit=720):
+    """every ordinal ranking of obs consistent with its order (ties broken in every possible way);
+    None when there are more than `limit` of them"""
+    n = len(obs)
+    vals = sorted(set(obs))
+    groups = [[i for i in range(n) if obs[i] == v] for v in vals]
+    total = 1
+    for g in groups:
+        total *= math.factorial(len(g))
+        if total > limit:
+            return None
+    out = []
+    for perms in itertools.product(*[itertools.permutations(g) for g in groups]):
+        rk = [0] * n
+        pos = 0
+        for g in perms:
+            for i in g:
+                rk[i] = pos
+                pos += 1
+        out.append(rk)
+    return out
+
+
 def rowstr(sim):
     return "[" + ";".join(",".join(C.f2h(v) for v in r) for r in sim) + "]"
 
@@ -325,12 +348,14 @@ def body(ctx):
             ctx.finding("dscore/external/argsort_not_a_ranking", "np.argsort(np.argsort(obs)) is not a ranking of obs", {**jc})
         if np.array_equal(onp, ost):
             add(f"dscore {C.f2h(eps)} {m} {C.flist(obs)} {rowstr(sim)}", "dscore", D, jc)
-            obranch = "stable"
             ctx.hist["dscore/obs_ranks_by_model"] = ctx.hist.get("dscore/obs_ranks_by_model", 0) + 1
         else:
-            add(f"dscorer {C.f2h(eps)} {m} {C.ilist(onp)} {rowstr(sim)}", "dscore", D, jc)
-            obranch = "numpy_tiebreak"
-            ctx.hist["dscore/obs_ranks_from_numpy_tiebreak"] = ctx.hist.get("dscore/obs_ranks_from_numpy_tiebreak", 0) + 1
+            # tied observations: how np.argsort breaks the ties is external (unspecified by numpy, not constrained by the
+            # property); the model is run with the stable tie-break and with this numpy's, either may be the code's
+            gid = len(reqs)
+            add(f"dscore {C.f2h(eps)} {m} {C.flist(obs)} {rowstr(sim)}", "dscore_alt", (D, gid), jc)
+            add(f"dscorer {C.f2h(eps)} {m} {C.ilist(onp)} {rowstr(sim)}", "dscore_alt", (D, gid), jc)
+            ctx.hist["dscore/obs_ranks_tiebreak_external"] = ctx.hist.get("dscore/obs_ranks_tiebreak_external", 0) + 1
         gk = "dscore/grid=" + case["gen"].split("/")[0]
         ctx.hist[gk] = ctx.hist.get(gk, 0) + 1
         ctx.count(("dscore", tuple(obs), sim.tobytes(), eps), math.isfinite(D),
@@ -346,14 +371,25 @@ def body(ctx):
                 ctx.finding("dscore/constant_forecast_ranks/nan",
                             "D is NaN (0/0 in the rank correlation) when every forecast has the same rank", {**jc, "D": "nan"})
             return
-        Ddef = (max(-1.0, min(1.0, rdef)) + 1) / 2
         if not (D == D and 0.0 <= D <= 1.0):
             ctx.finding("dscore/out_of_range", "D is not in [0, 1]", {**jc, "D": repr(D)})
             return
-        if abs(D - Ddef) > 1e-12:
-            tag = "/single_member_ties" if m == 1 and len(set(sim[:, 0].tolist())) < n else ""
-            ctx.finding("dscore/not_rank_correlation" + tag,
-                        "D differs from (Pearson(obs ranks, Weigel-Mason forecast ranks) + 1)/2", {**jc, "D": D, "definition": Ddef})
+        # value of D: the property does not say how tied observations are ranked, so every ordinal ranking of the
+        # observations consistent with their order is admissible (all of them when there are at most 720)
+        rankings = tiebreak_rankings(obs)
+        if rankings is not None:
+            Ddefs = []
+            for rk in rankings:
+                r = pearson_exact(rk, wr)
+                Ddefs.append((max(-1.0, min(1.0, r)) + 1) / 2)
+            if not any(abs(D - d) <= 1e-12 for d in Ddefs):
+                tag = "/single_member_ties" if m == 1 and len(set(sim[:, 0].tolist())) < n else ""
+                ctx.finding("dscore/not_rank_correlation" + tag,
+                            "D differs from (Pearson(obs ranks, Weigel-Mason forecast ranks) + 1)/2 for every admissible "
+                            "ranking of the observations", {**jc, "D": D, "definition": sorted(set(Ddefs))[:6]})
+            ctx.hist["dscore/value_judged"] = ctx.hist.get("dscore/value_judged", 0) + 1
+        else:
+            ctx.hist["dscore/value_not_judged_many_obs_ties"] = ctx.hist.get("dscore/value_not_judged_many_obs_ties", 0) + 1
         # perfect / inverse ordering
         if len(set(obs)) == n:
             half = m * m / 2.0
@@ -517,7 +553,10 @@ def body(ctx):
         if kind.startswith("eps") and n >= 2 and m >= 2:
             # dscore ignores the kernel's return code: the ranks stay 0 and the score is NaN (model: none)
             obs = [float(v) for v in rng.sample(range(20), n)]
-            Dm = float(metrics.dscore(np.array(obs), sim, eps=eps))
+            try:
+                Dm = float(metrics.dscore(np.array(obs), sim, eps=eps))
+            except Exception:  # noqa  (an invalid eps may as well be rejected: outside the property's quantifier)
+                Dm = float("nan")
             add(f"dscore {C.f2h(eps)} {m} {C.flist(obs)} {rowstr(sim)}", "dscore", Dm,
                 {"obs": obs, "sim": sim.tolist(), "eps": eps, "gen": "malformed/" + kind})
 
@@ -545,10 +584,23 @@ def body(ctx):
             if random_:
                 add(f"pitr {C.f2h(cst)} {C.f2h(obs[i])} {C.f2h(dobs[i])} {C.flist(ens[i])} {C.flist(dens[i])}",
                     "pit", float(pits[i]), {**case, "i": i})
-                cnt = sum(1 for j in range(m) if Fraction(ens[i, j]) + Fraction(dens[i, j]) < Fraction(obs[i]) + Fraction(dobs[i]))
-                # counts are only compared where rounding of the jittered values cannot matter
-                safe = all(abs(ens[i, j] - obs[i]) > 1e-6 or ens[i, j] == obs[i] for j in range(m))
-                cnts.append((cnt, 0) if safe else None)
+                # oracle, independent of how the code draws its jitter (the replayed draws above serve the model
+                # correspondence only): members further than 2 EPS from the observation are counted for sure, members
+                # within 2 EPS may fall on either side. The count implied by the PIT value must be an integer between
+                # the two bounds; it is compared across forecasts only where the bounds coincide.
+                if 0.0 <= cst <= 0.5:
+                    lo = int(np.sum(ens[i] < obs[i] - 2 * EPS_PIT))
+                    hi = int(np.sum(ens[i] <= obs[i] + 2 * EPS_PIT))
+                    kimp = pits[i] * (1.0 - cst + m) - 0.5 + cst
+                    kr = int(round(kimp)) if math.isfinite(kimp) else -1
+                    if not (abs(kimp - kr) <= 1e-9 * (m + 1) and lo <= kr <= hi):
+                        ctx.finding("pit/not_plotting_position_of_count",
+                                    "PIT is not (k + 0.5 - cst)/(1 - cst + m) for a count k between the number of members "
+                                    "certainly below and possibly below the observation",
+                                    {**case, "i": i, "pit": float(pits[i]), "implied_count": float(kimp), "bounds": [lo, hi]})
+                    cnts.append((lo, 0) if lo == hi else None)
+                else:
+                    cnts.append(None)
             else:
                 add(f"pitk {C.f2h(obs[i])} {C.flist(ens[i])}", "pit", float(pits[i]), {**case, "i": i})
                 left = int(np.sum(ens[i] < obs[i]))
@@ -718,6 +770,7 @@ def body(ctx):
 
     # ---------------- correspondence
     replies = lean.ask(reqs)
+    alt_hits = {}
     for req, rep, (kind, impl, case) in zip(reqs, replies, checks):
         ok = True
         if kind == "ensrank":
@@ -730,6 +783,15 @@ def body(ctx):
             else:
                 mv = C.h2f(rep.split(" ")[1])
                 ok = impl == impl and abs(mv - impl) <= 1e-12
+        elif kind == "dscore_alt":
+            Dv, gid = impl
+            if rep == "none":
+                hit = Dv != Dv
+            else:
+                hit = Dv == Dv and abs(C.h2f(rep.split(" ")[1]) - Dv) <= 1e-12
+            alt_hits.setdefault(gid, [False, req, rep, case])
+            alt_hits[gid][0] = alt_hits[gid][0] or hit
+            continue
         elif kind == "pit":
             ok = C.close(C.h2f(rep), impl, rel=1e-15, ulps=2)
         elif kind == "sudo":
@@ -755,6 +817,11 @@ def body(ctx):
             jc = {k: (v.tolist() if isinstance(v, np.ndarray) else v) for k, v in case.items()} if isinstance(case, dict) else case
             ctx.disagree(f"C10/{kind}: implementation and model differ",
                          {"request": req[:1500], "impl": repr(impl)[:1500], "model": rep[:1500], **jc})
+    for gid, (hit, req, rep, case) in alt_hits.items():
+        if not hit:
+            jc = {k: (v.tolist() if isinstance(v, np.ndarray) else v) for k, v in case.items()}
+            ctx.disagree("C10/dscore: implementation differs from the model under the stable and under numpy's tie-break of tied observations",
+                         {"request": req[:1500], "model": rep[:200], **jc})
     ctx.extra["rule"] = __doc__.split("Cases:")[1].strip()
     ctx.assumptions += [
         "glibc qsort is a stable merge sort (2.36); the model's sort parameter is instantiated by a stable merge sort",
